@@ -32,6 +32,9 @@ var clashWitnesses = []clashWitness{
 	{kfPublicForward, "open", []string{
 		`name: "w1.proto" package: "wa" syntax: "proto3" enum_type: { name: "Color" value: { name: "COLOR_UNSPECIFIED" number: 0 } }`,
 		`name: "w2.proto" package: "wb" syntax: "proto3" dependency: "w1.proto" public_dependency: 0 message_type: { name: "Color" }`}},
+	{kfPublicOpaque, "hybrid+protoopaque", []string{
+		`name: "w1.proto" package: "wa" syntax: "proto3" message_type: { name: "Item" field: { name: "value" number: 1 ` + opt + ` type: TYPE_INT32 oneof_index: 0 json_name: "value" } oneof_decl: { name: "o" } }`,
+		`name: "w2.proto" package: "wb" syntax: "editions" edition: EDITION_2024 dependency: "w1.proto" public_dependency: 0`}},
 	{kfProtoReflect, "open", []string{`name: "w.proto" package: "w" syntax: "proto3"
 		message_type: { name: "Msg" field: { name: "proto_reflect" number: 1 ` + opt + ` type: TYPE_INT32 json_name: "protoReflect" } }`}},
 	{kfOneofGetter, "open", []string{`name: "w.proto" package: "w" syntax: "proto3"
